@@ -35,6 +35,8 @@ func runC14(o opts) error {
 		scns = append(scns, c14.GenDraw(rng, th)...)
 		scns = append(scns, c14.GenPaintSmall(rng)...)
 		scns = append(scns, c14.PaintFixed()...)
+		scns = append(scns, c14.PaintWideFixed()...)
+		scns = append(scns, c14.GenPaintWide(rng, th)...)
 		n := 250
 		if th {
 			n = 6000
